@@ -53,15 +53,41 @@ def model_config(env_backend, env_ugp, env_ugdp, env_path, importable):
     return {"default_backend": b, "backend_path": env_path, "use_graph_primitive": ugp, "use_graph_division_primitive": ugdp}
 
 
-class ModuleWorld(object):
-    """Controls which optional backend modules are importable, via sys.modules."""
+class _BrokenFinder(object):
+    """A module that is installed but cannot be loaded: the import system finds it, loading raises ImportError."""
 
-    def __init__(self, importable, spy=None):
+    def __init__(self, names):
+        self.names = set(names)
+
+    def find_spec(self, name, path=None, target=None):
+        if name in self.names:
+            import importlib.machinery
+
+            return importlib.machinery.ModuleSpec(name, self)
+        return None
+
+    def create_module(self, spec):
+        raise ImportError("shared library of %s cannot be loaded (simulated)" % spec.name)
+
+    def exec_module(self, module):
+        raise ImportError("cannot be loaded (simulated)")
+
+
+class ModuleWorld(object):
+    """Controls which optional backend modules are importable: present (sys.modules entry), absent (None entry) or
+    present-but-broken (found by the import system, ImportError while loading)."""
+
+    def __init__(self, importable, spy=None, broken=()):
         self.importable = set(importable)
+        self.broken = set(broken)
         self.spy = spy
 
     def __enter__(self):
         self.saved = {}
+        self.finder = None
+        if self.broken:
+            self.finder = _BrokenFinder(MODULE_OF[n] for n in self.broken)
+            sys.meta_path.insert(0, self.finder)
         for name, mod in MODULE_OF.items():
             self.saved[mod] = sys.modules.get(mod, "absent")
             if name in self.importable:
@@ -78,11 +104,15 @@ class ModuleWorld(object):
                 spy = self.spy
                 m.solver = (lambda text, _n=mod: spy(_n, text)) if spy else (lambda text: "s UNSATISFIABLE\n")
                 sys.modules[mod] = m
+            elif name in self.broken:
+                sys.modules.pop(mod, None)  # the broken finder answers
             else:
                 sys.modules[mod] = None  # `import mod` raises ImportError
         return self
 
     def __exit__(self, *a):
+        if self.finder is not None:
+            sys.meta_path.remove(self.finder)
         for mod, old in self.saved.items():
             if old == "absent":
                 sys.modules.pop(mod, None)
@@ -108,6 +138,20 @@ def run_construction(part, lo, hi):
                             os.environ[k] = v
                     want = model_config(*combo, importable=imp)
                     case = {"env": dict(zip(keys, combo)), "importable": list(imp)}
+                    if combo[0] in (None, "auto") and combo[1] is None and combo[2] is None:
+                        # the same with every non-importable module *broken* instead of absent (still not importable)
+                        for nb in range(1, 1 << len(PRIORITY)):
+                            broken = [n for k, n in enumerate(PRIORITY) if nb >> k & 1 and n not in imp and n != "z3"]
+                            if not broken or len(broken) != bin(nb).count("1"):
+                                continue
+                            part.count("evaluations")
+                            try:
+                                with ModuleWorld(imp, broken=broken):
+                                    c2 = Config()
+                                if c2.default_backend != want["default_backend"]:
+                                    part.violation("Config:broken-module-not-skipped", dict(case, broken=broken), {"got": c2.default_backend, "expected": want["default_backend"]})
+                            except Exception as e:
+                                part.violation("Config:broken-module-raises-" + type(e).__name__, dict(case, broken=broken), {"exception": repr(e)[:200]})
                     part.count("evaluations")
                     try:
                         c = Config()
@@ -188,14 +232,51 @@ def expected_native(kind, arg, state):
     return 1 if use else 0
 
 
-def post_graph(kind, arg):
+GRAPH_FAMILIES = ["path3", "K12", "wheel30", "star20", "multi2x20", "grid6x6"]
+
+
+def family_graph(name):
+    from cspuz import graph
+
+    if name == "path3":
+        n, es = 3, [(0, 1), (1, 2)]
+    elif name == "K12":
+        n, es = 12, [(u, v) for u in range(12) for v in range(u + 1, 12)]
+    elif name == "wheel30":
+        n, es = 31, [(0, i) for i in range(1, 31)] + [(i, i % 30 + 1) for i in range(1, 31)]
+    elif name == "star20":
+        n, es = 21, [(0, i) for i in range(1, 21)]
+    elif name == "multi2x20":
+        n, es = 2, [(0, 1)] * 20
+    else:
+        n, es = 36, [(y * 6 + x, y * 6 + x + 1) for y in range(6) for x in range(5)] + [(y * 6 + x, (y + 1) * 6 + x) for y in range(5) for x in range(6)]
+    g = graph.Graph(n)
+    for u, v in es:
+        g.add_edge(u, v)
+    return g
+
+
+def post_graph(kind, arg, family="path3"):
     from cspuz import BoolGridFrame, Solver, graph
 
     s = Solver()
     kw = {} if arg is None else {"use_graph_primitive": arg}
-    g = graph.Graph(3)
-    g.add_edge(0, 1)
-    g.add_edge(1, 2)
+    g = family_graph(family)
+    if family != "path3":
+        n, m = g.num_vertices, len(g)
+        if kind == "connected":
+            graph.active_vertices_connected(s, s.bool_array(n), g, **kw)
+        elif kind == "connected-acyclic":
+            graph.active_vertices_connected(s, s.bool_array(n), g, acyclic=True, **kw)
+        elif kind == "division":
+            graph.division_connected(s, s.int_array(n, 0, 1), 2, g)
+        elif kind == "cycle":
+            graph.active_edges_single_cycle(s, s.bool_array(m), g, **kw)
+        elif kind == "crossable":
+            graph.active_edges_connected_crossable(s, BoolGridFrame(s, 6, 7), **kw)
+        elif kind == "borders":
+            graph.division_connected_variable_groups_with_borders(s, group_size=[None] * n, is_border=s.bool_array(m), graph=g, **kw)
+        return gcheck.count_native(s.constraints)
     if kind == "connected":
         graph.active_vertices_connected(s, s.bool_array(3), g, **kw)
     elif kind == "connected-acyclic":
@@ -283,6 +364,14 @@ def run_histories(part, first_events, depth):
                             want = expected_native(ev[1], ev[2], state)
                             try:
                                 got = post_graph(ev[1], ev[2])
+                                if idx == len(hist) - 1 and len(hist) <= 2:
+                                    # the same decision must not depend on the size or shape of the graph
+                                    for fam in GRAPH_FAMILIES[1:]:
+                                        part.count("transitions")
+                                        g2 = post_graph(ev[1], ev[2], fam)
+                                        if g2 != want:
+                                            part.violation("graph[%s,arg=%s,%s]:%s" % (ev[1], ev[2], fam, "native-used" if g2 > want else "native-not-used"), dict(case, family=fam),
+                                                           {"native_operators": g2, "expected": want, "config": dict(state)})
                             except Exception as e:
                                 part.violation("graph[%s]:raises-%s" % (ev[1], type(e).__name__), case, {"exception": repr(e)[:200]})
                                 continue
@@ -407,7 +496,8 @@ def main(tier, seed, only=None):
         PID, tier, seed, "model_checking",
         "construction: Config() under CSPUZ_DEFAULT_BACKEND in %r x CSPUZ_USE_GRAPH_PRIMITIVE and CSPUZ_USE_GRAPH_DIVISION_PRIMITIVE in %r x "
         "CSPUZ_BACKEND_PATH unset/set x all 16 subsets of importable {cspuz_core, enigma_csp, pycsugar, z3} (sys.modules) = 32000 "
-        "configurations + 40 in fresh interpreters; dispatch: all histories of <= %d events over %d events (assign default_backend / "
+        "configurations + 40 in fresh interpreters, plus every non-importable module also in the state 'installed but ImportError on load'; graph calls "
+        "repeated on K12, a 30-spoke wheel, a 20-leaf star, 20 parallel edges and the 6x6 grid; dispatch: all histories of <= %d events over %d events (assign default_backend / "
         "use_graph_primitive / use_graph_division_primitive / backend_path; six graph constraints with use_graph_primitive None/True/False; "
         "find_answer and solve with backend None / each name / a class / 'bogus'), spies on the z3 backend class, the three extension modules "
         "and the subprocess entry point.  States = configuration triples reached." % (BACKEND_ENV, BOOL_ENV, depth, len(evs)),
